@@ -17,13 +17,14 @@ CONSTANTS
   MaxIgnoreConds = %d
   WithAlt = %s
   Reduced = %s
+  Shared = %s
 INVARIANTS %s
 CHECK_DEADLOCK FALSE
 """
 
 
-def cfg(blocks, nm, ni, cm, ci, alt, inv, reduced=False):
-    return CFG % (blocks, nm, ni, cm, ci, "TRUE" if alt else "FALSE", "TRUE" if reduced else "FALSE", inv)
+def cfg(blocks, nm, ni, cm, ci, alt, inv, reduced=False, shared=False):
+    return CFG % (blocks, nm, ni, cm, ci, "TRUE" if alt else "FALSE", "TRUE" if reduced else "FALSE", "TRUE" if shared else "FALSE", inv)
 
 
 MC_INV = "Inv_C09 Inv_Shortcut"
@@ -55,7 +56,8 @@ def lbl(ls):
 
 def sig_of(f):
     r = f["rule"]
-    return "C09:match=%s:ignore=%s:%s/%s:applied=%s:rule=%s/%s/%s/r=%s/g=%s/a=%s/for=%s/kff=%s" % (
+    return "C09:%smatch=%s:ignore=%s:%s/%s:applied=%s:rule=%s/%s/%s/r=%s/g=%s/a=%s/for=%s/kff=%s" % (
+        ("shared-check:block%s/%s:" % (f["block"], f["nblocks"])) if f.get("shared") else "",
         "".join(conds(m) for m in f["match"]), "".join(conds(m) for m in f["ignore"]), f["cmd"], f["state"],
         int(bool(f["observed"])), r["rkind"], r["name"], r["path"], lbl(r["labels"]), lbl(r["glabels"]), lbl(r["annotations"]),
         r["for"], r["kff"])
@@ -63,7 +65,7 @@ def sig_of(f):
 
 def what_of(f, n):
     r = f["rule"]
-    return ("rule{} block with match %s ignore %s is %s to %s rule %s (%s, labels %s, group labels %s, annotations %s, for %s, "
+    return (("the SAME check is defined in %d blocks; " % f["nblocks"] if f.get("shared") else "") + "rule{} block with match %s ignore %s is %s to %s rule %s (%s, labels %s, group labels %s, annotations %s, for %s, "
             "keep_firing_for %s) under `pint %s`, state %s [%s] - the documented meaning says the opposite (%d such points "
             "in this configuration)") % (
         "".join(conds(m) for m in f["match"]) or "{}", "".join(conds(m) for m in f["ignore"]) or "-",
@@ -98,6 +100,10 @@ def run(ctx, cases_override=None):
                                timeout=3000, allow_violation=True, workers=W))
             mcs.append(ctx.tlc("DispatchC09", "c09_mc2.cfg", files={"c09_mc2.cfg": cfg(1, 1, 1, 0, 1, True, MC_INV)},
                                timeout=3000, allow_violation=True, workers=W))
+        # two blocks carrying the IDENTICAL marker check (reduced alphabet): the check applies iff some block selects the rule;
+        # Inv_Shortcut runs the full GetChecksForEntry path incl. the de-duplication by String()
+        mcs.append(ctx.tlc("DispatchC09", "c09_mcs.cfg", files={"c09_mcs.cfg": cfg(2, 1, 1 if th else 0, 1, 1 if th else 0, False, MC_INV, reduced=True, shared=True)},
+                           timeout=3000, allow_violation=True, workers=W))
     leads = [m["invariant_violated"] for m in mcs if m["invariant_violated"]]
     # ---- GEN
     head = None
@@ -130,6 +136,13 @@ def run(ctx, cases_override=None):
             cases += gen("c09_gen0.cfg", cfg(1, 1, 0, 1, 0, True, "EmitCase"))             # single match condition (all atoms)
             cases += gen("c09_gen1.cfg", cfg(1, 0, 1, 0, 1, True, "EmitCase"))             # single ignore condition
             cases += gen("c09_gen2.cfg", cfg(3, 2, 2, 3, 3, True, "EmitCase"), simulate=60, depth=80)
+        # the same check in two blocks, every combination of (one match sub-block | none) per block, and of one ignore sub-block
+        # per block: earlier-not-selecting / later-selecting and the reverse are among them
+        cases += gen("c09_gens1.cfg", cfg(2, 1, 0, 1, 0, False, "EmitCase", reduced=True, shared=True))
+        cases += gen("c09_gens2.cfg", cfg(2, 0, 1, 0, 1, False, "EmitCase", reduced=True, shared=True))
+        if th:
+            cases += gen("c09_gens3.cfg", cfg(2, 1, 1, 1, 1, False, "EmitCase", reduced=True, shared=True))
+            cases += gen("c09_gens4.cfg", cfg(3, 1, 0, 1, 0, False, "EmitCase", reduced=True, shared=True))
         seen, uniq = set(), []
         for c in cases:
             k = json.dumps(c, sort_keys=True)
